@@ -467,3 +467,34 @@ M('c07-wsgi-next-skips-blank-lines', 'C07', 'R3', W,
 M('c07-wsgi-readlines-peeks-and-discards', 'C07', 'R3', W,
   "        lines: List[bytes] = []\n        total = 0\n",
   "        lines: List[bytes] = []\n        total = 0\n        self.readline(0 if hint else 1)\n")
+
+# ------------------------------------------------------------------ wave 8
+# R6 (s8-c07-1): the value that becomes the stream budget is fed by the CGI meta-variable CONTENT_LENGTH only (the length
+# the server framed the body with), never by a key of the client's header namespace HTTP_*
+_CL_MISSING = """        try:
+            value = self.env['CONTENT_LENGTH']
+        except KeyError:
+            return None
+"""
+M('c07-wsgi-content-length-falls-back-to-http-key', 'C07', 'R6', _R, _CL_MISSING,
+  """        try:
+            value = self.env['CONTENT_LENGTH']
+        except KeyError:
+            value = self.env.get('HTTP_CONTENT_LENGTH')
+""")
+M('c07-wsgi-content-length-or-http-key', 'C07', 'R6', _R, _CL_MISSING,
+  """        value = self.env.get('CONTENT_LENGTH') or self.env.get('HTTP_CONTENT_LENGTH')
+""")
+M('c07-wsgi-content-length-through-get-header', 'C07', 'R6', _R, _CL_MISSING,
+  """        value = self.get_header('Content-Length')
+""", also=('C04',))  # get_header() of a missing header returns None where the constructor expects KeyError: escape set (C04 R6)
+M('c07-asgi-content-length-falls-back-to-x-header', 'C07', 'R6', 'falcon/asgi/request.py',
+  """        try:
+            value = self._asgi_headers[b'content-length']
+        except KeyError:
+            return None
+""", """        try:
+            value = self._asgi_headers[b'content-length']
+        except KeyError:
+            value = self._asgi_headers.get(b'x-content-length', b'')
+""", also=('C06',))
